@@ -39,6 +39,7 @@ struct Frame {
     int cb = -1;
     uint64_t gseq = 0;
     int nested = 0;        // number of callback frames opened inside (for api frames)
+    int script_ops = 0;    // number of scripted operations executed inside (0: callbacks, if any, did nothing)
     bool touched_target = false;   // a nested frame operated on the target
     bool had_ctx_at_entry = false; // context model when the call was entered
     int ctx_gen_at_entry = 0;
@@ -164,6 +165,8 @@ struct Slot {
     uint64_t pending_pill_first_gseq = 0;
     bool pill_overflowed = false;
     uint64_t batch_changed_gseq = 0, last_delivery_gseq = 0;
+    uint64_t batch_timer_armed_at = 0;   // simulated time at which the batch time-out timer was last (re)armed; 0 = unknown
+    bool batch_timer_exact = false;      // ... and that time is exact (seam cost 0)
     uint64_t tb_refused_gseq = 0;
     int tb_success_since_refusal = 0;
     int tb_polls_after_due = 0;
